@@ -12,6 +12,7 @@ import itertools, re
 from common.check import PropertyCheck, hx, unhx, Skip
 from mitmproxy.http import Headers
 from mitmproxy.net.http.http1 import read as h1read
+from mitmproxy.http import _native as http_native, _always_bytes as http_always_bytes
 from h11._receivebuffer import ReceiveBuffer
 
 MAXOBJ = 3
@@ -30,6 +31,9 @@ NAMES_X = NAMES + [b"Content-Length", b"x-\xc3\xa9", b"X-\xc3\x89", b"\xff", b""
 VALUES = [b"1", b"2", b"3"]
 VALUES_X = VALUES + [b"", b"x, y", b"v\xff", b" sp ", b"a=b; c", b"\xc3\xa9"]
 
+# lead/continuation bytes at every validity boundary of utf-8 (overlong, surrogates, > U+10FFFF), plus ASCII
+UTF8_EDGE = [0x2c, 0x41, 0x7f, 0x80, 0x8f, 0x90, 0x9f, 0xa0, 0xbf, 0xc0, 0xc1, 0xc2, 0xc3, 0xdf, 0xe0, 0xe1, 0xec, 0xed, 0xee, 0xef,
+             0xf0, 0xf1, 0xf3, 0xf4, 0xf5, 0xff]
 TCHAR = set(b"!#$%&'*+-.^_`|~0123456789abcdefghijklmnopqrstuvwxyzABCDEFGHIJKLMNOPQRSTUVWXYZ")
 PYWS = b" \t\r\n"
 
@@ -47,6 +51,22 @@ def tob(x) -> bytes:
     return x if isinstance(x, bytes) else x.encode("utf-8", "surrogateescape")
 
 
+def arg_obj(x: str, s):
+    """the Python object passed for a text argument of a case: `u<code points>` = that very str (may be unencodable);
+    otherwise hex of bytes, passed as bytes (s=0) or as the str `_native` would give (s=1)"""
+    if x.startswith("u"): return uncps(x[1:])
+    return nat(unhx(x), s)
+
+
+def arg_bytes(x: str):
+    """bytes the argument stands for, or None when `_always_bytes` must raise UnicodeEncodeError"""
+    if not x.startswith("u"): return unhx(x)
+    try:
+        return uncps(x[1:]).encode("utf-8", "surrogateescape")
+    except UnicodeEncodeError:
+        return None
+
+
 def valid_field(n: bytes, v: bytes) -> bool:
     """RFC 7230 field: token name; value of VCHAR / obs-text / SP / HTAB without leading/trailing SP/HTAB"""
     return (len(n) > 0 and all(c in TCHAR for c in n)
@@ -55,8 +75,19 @@ def valid_field(n: bytes, v: bytes) -> bool:
 
 
 # ---- canonical rendering (must agree token by token with lean/Driver/C35.lean) -----------------------------------
-def r_list(xs): return " ".join(["list", str(len(xs))] + [hx(tob(x)) for x in xs])
-def r_pairs(ps): return " ".join(["pairs", str(len(ps))] + [hx(tob(x)) for p in ps for x in p])
+def cps(x: str) -> str: return ".".join("%x" % ord(c) for c in x) if x else "-"
+def uncps(t: str) -> str: return "" if t == "-" else "".join(chr(int(w, 16)) for w in t.split("."))
+def r_text(x):
+    """a value the API returned (or an argument): str as its code points, bytes as hex — the type is observable"""
+    return "u" + cps(x) if isinstance(x, str) else "b" + hx(x)
+def U(b: bytes) -> str:
+    """reference rendering of the str the API returns for stored bytes (CPython's own codec, for the oracle only)"""
+    return "u" + cps(b.decode("utf-8", "surrogateescape"))
+def untext(t: str):
+    return uncps(t[1:]) if t[0] == "u" else unhx(t[1:])
+def r_list(xs): return " ".join(["list", str(len(xs))] + [r_text(x) for x in xs])
+def r_pairs(ps): return " ".join(["pairs", str(len(ps))] + [r_text(x) for p in ps for x in p])
+def sfold(vs): return ", ".join(v.decode("utf-8", "surrogateescape") for v in vs)
 def r_fields(fs): return " ".join([str(len(fs))] + [hx(x) for f in fs for x in f])
 def r_state(objs): return "S " + str(len(objs)) + "".join(" / " + r_fields(o.fields) for o in objs)
 
@@ -161,6 +192,15 @@ class Check(PropertyCheck):
                 for seq in itertools.product(al, repeat=d):
                     yield {"kind": "seq", "init": init, "ops": [list(o) for o in seq] + probe}
 
+    def _utf8ish(self, rng, n):
+        """byte soup around the utf-8 validity boundaries"""
+        return bytes(rng.pick(UTF8_EDGE) if rng.chance(0.8) else rng.getrandbits(8) for _ in range(n))
+
+    def _rand_cps(self, rng):
+        pool = [0x61, 0x41, 0x2c, 0x20, 0x7f, 0x80, 0xe9, 0x7ff, 0x800, 0xd7ff, 0xd800, 0xdbff, 0xdc00, 0xdc7f, 0xdc80, 0xdcc3, 0xdca9,
+                0xdcff, 0xdd00, 0xdfff, 0xe000, 0xffff, 0x10000, 0x1f600, 0x10ffff]
+        return ".".join("%x" % rng.pick(pool) for _ in range(rng.randint(1, 4)))
+
     def _rand_name(self, rng):
         if rng.chance(0.75): return rng.pick(NAMES)
         if rng.chance(0.8): return rng.pick(NAMES_X)
@@ -181,7 +221,9 @@ class Check(PropertyCheck):
             o = rng.pick(QUERIES)
         op = [o, t, s]
         for c in SHAPES[o]:
-            if c == "k": op.append(hx(self._rand_name(rng)))
+            if c in "kv" and rng.chance(0.04): op.append("u" + self._rand_cps(rng))        # an arbitrary str, maybe unencodable
+            elif c in "kv" and rng.chance(0.08): op.append(hx(self._utf8ish(rng, rng.randint(1, 4))))
+            elif c == "k": op.append(hx(self._rand_name(rng)))
             elif c == "v": op.append(hx(self._rand_value(rng)))
             elif c == "V": op.append([hx(self._rand_value(rng)) for _ in range(rng.pick([0, 1, 1, 2, 2, 3, 4]))])
             elif c == "i": op.append(rng.randint(-7, 7) if rng.chance(0.9) else rng.pick([-100, 100, 2 ** 40, -2 ** 40]))
@@ -197,7 +239,14 @@ class Check(PropertyCheck):
             op = self._rand_op(rng, nobj)
             if op[0] == "cp": nobj += 1
             ops.append(op)
-        return {"kind": "seq", "init": init, "ops": ops}
+        case = {"kind": "seq", "init": init, "ops": ops}
+        if rng.chance(0.15):
+            kn = [b"a_b", b"A", b"set_cookie", b"x", b"a-b", b"b"]
+            case["kw"] = [["u" + (self._rand_cps(rng) if rng.chance(0.1) else cps(rng.pick(kn).decode())),
+                           ("u" + self._rand_cps(rng)) if rng.chance(0.1) else hx(self._rand_value(rng))]
+                          for _ in range(rng.randint(1, 3))]
+            if len({k for k, _ in case["kw"]}) != len(case["kw"]): del case["kw"]          # Python keywords are distinct
+        return case
 
     def _valid_name(self, rng):
         if rng.chance(0.5): return rng.pick([b"Host", b"host", b"Accept", b"Set-Cookie", b"X-a", b"a", b"A", b"Content-Length"])
@@ -234,13 +283,25 @@ class Check(PropertyCheck):
               for _ in range(rng.pick([0, 1, 2, 3, 4]))]
         return {"kind": "rd", "lines": [hx(l) for l in ls]}
 
+    def _codec_scope(self, tier):
+        yield {"kind": "str", "data_hex": "-"}
+        for a in range(256): yield {"kind": "str", "data_hex": hx(bytes([a]))}
+        edge = UTF8_EDGE if tier == "thorough" else UTF8_EDGE[::2]
+        for n in (2, 3):
+            for t in itertools.product(edge, repeat=n): yield {"kind": "str", "data_hex": hx(bytes(t))}
+        for c in (0, 0x7f, 0x80, 0x7ff, 0x800, 0xd7ff, 0xd800, 0xdc7f, 0xdc80, 0xdcff, 0xdd00, 0xdfff, 0xe000, 0xffff, 0x10000, 0x10ffff):
+            yield {"kind": "enc", "cps": "%x" % c}
+
     def generate(self, rng, tier):
+        yield from self._codec_scope(tier)
         yield from self._small_scope(3 if tier == "quick" else 4)
         while True:
             r = rng.random()
-            if r < 0.7: yield self._rand_seq(rng)
-            elif r < 0.9: yield self._rt(rng)
-            else: yield self._rd(rng)
+            if r < 0.6: yield self._rand_seq(rng)
+            elif r < 0.75: yield self._rt(rng)
+            elif r < 0.82: yield self._rd(rng)
+            elif r < 0.94: yield {"kind": "str", "data_hex": hx(self._utf8ish(rng, rng.randint(1, 9)))}
+            else: yield {"kind": "enc", "cps": self._rand_cps(rng)}
 
     # ------------------------------------------------------------------ implementation runner
     def _norm_ops(self, case):
@@ -261,11 +322,11 @@ class Check(PropertyCheck):
         o, t, s = op[0], op[1], op[2]
         h = objs[t]
         a = op[3:]
-        K = lambda x: nat(unhx(x), s)
+        K = lambda x: arg_obj(x, s)
         try:
-            if o == "gi": return "val " + hx(tob(h[K(a[0])]))
+            if o == "gi": return "val " + r_text(h[K(a[0])])
             if o == "ge":
-                r = h.get(K(a[0])); return "nothing" if r is None else "some " + hx(tob(r))
+                r = h.get(K(a[0])); return "nothing" if r is None else "some " + r_text(r)
             if o == "ga": return r_list(h.get_all(K(a[0])))
             if o == "co": return "true" if K(a[0]) in h else "false"
             if o == "si": h[K(a[0])] = K(a[1]); return "none"
@@ -281,15 +342,17 @@ class Check(PropertyCheck):
             if o == "is": return r_pairs(list(h.items()))
             if o == "ks": return r_list(list(h.keys(multi=bool(a[0]))))
             if o == "vs": return r_list(list(h.values(multi=bool(a[0]))))
-            if o == "po": return "val " + hx(tob(h.pop(K(a[0]))))
+            if o == "po": return "val " + r_text(h.pop(K(a[0])))
             if o == "pi":
-                k, v = h.popitem(); return "pair %s %s" % (hx(tob(k)), hx(tob(v)))
-            if o == "sd": return "val " + hx(tob(h.setdefault(K(a[0]), K(a[1]))))
+                k, v = h.popitem(); return "pair %s %s" % (r_text(k), r_text(v))
+            if o == "sd": return "val " + r_text(h.setdefault(K(a[0]), K(a[1])))
             if o == "cl": h.clear(); return "none"
             if o == "up": h.update([(K(k), K(v)) for k, v in a[0]]); return "none"
             if o == "by": return "bytes " + hx(bytes(h))
         except KeyError:
             return "keyerror"
+        except UnicodeEncodeError:                  # _always_bytes on a str with a lone surrogate outside U+DC80..DCFF
+            return "unicodeerror"
         except Exception as e:                      # anything else is not an allowed outcome: the oracle flags it
             return "exc:" + type(e).__name__
         raise Skip()
@@ -297,8 +360,13 @@ class Check(PropertyCheck):
     def impl(self, case):
         kind = case["kind"]
         if kind == "seq":
-            objs = [Headers([(unhx(n), unhx(v)) for n, v in case["init"]])]
-            steps = []
+            kw = case.get("kw")
+            try:
+                objs = [Headers([(unhx(n), unhx(v)) for n, v in case["init"]],
+                                **({uncps(n[1:]): arg_obj(v, 1) for n, v in kw} if kw else {}))]
+            except UnicodeEncodeError:
+                return ["unicodeerror"]
+            steps = ["init " + r_state(objs)] if kw else []
             for op in self._norm_ops(case):
                 r = self._run_op(objs, op)
                 steps.append(r + " " + r_state(objs))
@@ -314,6 +382,15 @@ class Check(PropertyCheck):
             return {"bytes": hx(block), "lines": [hx(l) for l in lines], "res": self._read(lines)}
         if kind == "rd":
             return {"res": self._read([unhx(l) for l in case["lines"]])}
+        if kind == "str":                               # _native, and _always_bytes on its result
+            b = unhx(case["data_hex"])
+            st = http_native(b)
+            return {"native": "u" + cps(st), "back": hx(http_always_bytes(st))}
+        if kind == "enc":                               # _always_bytes on an arbitrary str
+            try:
+                return {"enc": "b" + hx(http_always_bytes(uncps(case["cps"])))}
+            except UnicodeEncodeError:
+                return {"enc": "unicodeerror"}
         raise Skip()
 
     @staticmethod
@@ -343,10 +420,32 @@ class Check(PropertyCheck):
             return []
         if kind == "rd":
             return [f"unexpected exception {obs['res']}"] if obs["res"].startswith("exc:") else []
+        if kind == "str":
+            # what the API hands out for stored bytes must denote those bytes again when handed back as a key or value
+            return [] if obs["back"] == case["data_hex"] else [f"_always_bytes(_native(b)) = {obs['back']} for b = {case['data_hex']}"]
+        if kind == "enc":
+            return []
         # "the observable results match an ordered multimap with case-insensitive names that preserves the spelling
         #  and relative order of untouched fields" — checked law by law against the implementation's own pre-state
         fails = []
         P = [[(unhx(n), unhx(v)) for n, v in case["init"]]]
+        if case.get("kw"):
+            # Headers(fields, **kwargs): "Additional headers to set. Will overwrite existing values from `fields`" with
+            # underscores in the names turned into dashes — an assignment per keyword
+            kws = [(arg_bytes(n), arg_bytes(v)) for n, v in case["kw"]]
+            if any(x is None for pr in kws for x in pr):
+                return [] if obs == ["unicodeerror"] else [f"constructor with unencodable keyword: {obs[:1]}"]
+            if obs == ["unicodeerror"]: return ["constructor raised UnicodeEncodeError although every keyword is encodable"]
+            ret0, Q0 = parse_step(obs[0])
+            names = [n.replace(b"_", b"-") for n, _ in kws]
+            q0 = Q0[0]
+            for n, v in zip(names, [v for _, v in kws]):
+                lastv = [w for m, w in zip(names, [v for _, v in kws]) if m == n][-1]
+                if [w for m, w in q0 if canon(m) == canon(n)] != [lastv] and len({canon(m) for m in names}) == len(names):
+                    return [f"constructor keyword {n!r} does not hold its value"]
+            keep = lambda fs: [f for f in fs if canon(f[0]) not in [canon(m) for m in names]]
+            if keep(q0) != keep(P[0]): return ["constructor keywords changed fields of other names"]
+            P = Q0; obs = obs[1:]
         for idx, (op, step) in enumerate(zip(self._norm_ops(case), obs)):
             ret, Q = parse_step(step)
             f = self._law(op, ret, P, Q)
@@ -361,6 +460,25 @@ class Check(PropertyCheck):
         o, t = op[0], op[1]
         a = op[3:]
         if ret[0].startswith("exc:"): return "unexpected exception " + ret[0]
+        D = lambda b: b.decode("utf-8", "surrogateescape")         # the str the API shows for stored bytes
+        # text arguments as the bytes they stand for (None: a str that _always_bytes cannot encode)
+        raw = list(a)
+        a = []
+        for c, x in zip(SHAPES[o], raw):
+            if c in "kv": a.append(arg_bytes(x))
+            elif c == "V": a.append([arg_bytes(v) for v in x])
+            elif c == "P": a.append([(arg_bytes(k), arg_bytes(v)) for k, v in x])
+            else: a.append(x)
+        flat = [y for c, x in zip(SHAPES[o], a) for y in ([x] if c in "kv" else x if c == "V" else [z for pr in x for z in pr] if c == "P" else [])]
+        sd_unused_default = (o == "sd" and a[0] is not None and a[1] is None
+                             and any(canon(n) == canon(a[0]) for n, _ in P[t]))
+        if sd_unused_default: a[1] = b""
+        elif any(y is None for y in flat):
+            # outside the statement (no multimap has such a key); the only demand: UnicodeEncodeError, nothing else changes
+            if ret[0] != "unicodeerror": return f"unencodable str argument: returned {' '.join(ret)}"
+            if o != "up" and Q != P: return "a call that raised UnicodeEncodeError changed the fields"
+            return None
+        if ret[0] == "unicodeerror": return "UnicodeEncodeError although every argument is encodable"
         want_n = len(P) + (1 if o == "cp" else 0)
         if len(Q) != want_n: return "number of objects changed"
         for j in range(len(P)):
@@ -372,63 +490,78 @@ class Check(PropertyCheck):
             if canon(n) not in [c for _, c in first]: first.append((n, canon(n)))
         def allv(fs, k): return [v for n, v in fs if canon(n) == canon(k)]
         def others(fs, ks): return [f for f in fs if canon(f[0]) not in [canon(k) for k in ks]]
+        def invented(k):
+            # "an ordered multimap ... that preserves the spelling": a multimap reports the names that were PUT IN.  The
+            # statement fixes the place of untouched fields only, so the position of touched fields is left free here
+            # (the tie pins it); but every field named k after an assignment must carry either the caller's spelling or
+            # the spelling of a distinct field of that name that was there before — a spelling is never made up or
+            # duplicated (seed c35-1: set_all(b"X-A", [n0, n1]) on [(x-a, v0)] gave two fields spelled x-a).
+            old = [n for n, _ in p if canon(n) == canon(k)]
+            for n in [n for n, _ in q if canon(n) == canon(k)]:
+                if n == k: continue
+                if n in old: old.remove(n)
+                else: return n
+            return None
         def pure(want):
             if q != p: return "a query changed the fields"
             return None if R == want else f"returned {R!r}, an ordered case-insensitive multimap gives {want!r}"
-        if o in ("gi", "ge", "ga", "co", "po", "sd", "di"): k = unhx(a[0]); vs = allv(p, k)
-        if o == "gi": return pure("val " + hx(fold(vs)) if vs else "keyerror")
-        if o == "ge": return pure("some " + hx(fold(vs)) if vs else "nothing")
-        if o == "ga": return pure(r_list(vs))
+        if o in ("gi", "ge", "ga", "co", "po", "sd", "di"): k = a[0]; vs = allv(p, k)
+        if o == "gi": return pure("val u" + cps(sfold(vs)) if vs else "keyerror")
+        if o == "ge": return pure("some u" + cps(sfold(vs)) if vs else "nothing")
+        if o == "ga": return pure(r_list([D(v) for v in vs]))
         if o == "co": return pure("true" if vs else "false")
-        if o == "it": return pure(r_list([n for n, _ in first]))
+        if o == "it": return pure(r_list([D(n) for n, _ in first]))
         if o == "ln": return pure("int %d" % len(first))
         if o == "eq": return pure("true" if p == P[a[0]] else "false")
-        if o == "im": return pure(r_pairs(p))
-        if o == "is": return pure(r_pairs([(n, fold(allv(p, n))) for n, _ in first]))
-        if o == "ks": return pure(r_list([n for n, _ in p] if a[0] else [n for n, _ in first]))
-        if o == "vs": return pure(r_list([v for _, v in p] if a[0] else [fold(allv(p, n)) for n, _ in first]))
+        if o == "im": return pure(r_pairs([(D(n), D(v)) for n, v in p]))
+        if o == "is": return pure(r_pairs([(D(n), sfold(allv(p, n))) for n, _ in first]))
+        if o == "ks": return pure(r_list([D(n) for n, _ in p] if a[0] else [D(n) for n, _ in first]))
+        if o == "vs": return pure(r_list([D(v) for _, v in p] if a[0] else [sfold(allv(p, n)) for n, _ in first]))
         if o == "by": return pure("bytes " + hx(b"".join(n + b": " + v + b"\r\n" for n, v in p)))
         if o == "cp":
             if R != "obj %d" % len(P): return "copy did not create a new object"
             if Q[-1] != p or q != p: return "copy differs from the original"
             return None
         if o in ("si", "sa"):
-            k = unhx(a[0]); vs = [unhx(a[1])] if o == "si" else [unhx(v) for v in a[1]]
+            k = a[0]; vs = [a[1]] if o == "si" else list(a[1])
             if R != "none": return f"returned {R}"
             if allv(q, k) != vs: return f"get_all after assignment gives {allv(q, k)} not {vs}"
             if others(q, [k]) != others(p, [k]): return "untouched fields changed spelling, value or relative order"
+            if invented(k) is not None: return f"a field named {k!r} is spelled {invented(k)!r}: neither the caller's spelling nor that of an existing field"
             return None
         if o in ("di", "po"):
             if not vs:
                 return None if (R == "keyerror" and q == p) else f"missing key: returned {R}"
-            want = "none" if o == "di" else "val " + hx(fold(vs))
+            want = "none" if o == "di" else "val u" + cps(sfold(vs))
             if R != want: return f"returned {R!r} want {want!r}"
             if q != others(p, [k]): return "delete must remove all fields of that name and only those"
             return None
         if o in ("ad", "in"):
             if R != "none": return f"returned {R}"
             if o == "ad":
-                want = p + [(unhx(a[0]), unhx(a[1]))]
+                want = p + [(a[0], a[1])]
             else:
-                i = a[0]; want = p[:i] + [(unhx(a[1]), unhx(a[2]))] + p[i:]
+                i = a[0]; want = p[:i] + [(a[1], a[2])] + p[i:]
             return None if q == want else "add/insert did not place exactly the new field at the requested position"
         if o == "pi":
             if not p: return None if (R == "keyerror" and q == p) else f"popitem on empty: {R}"
             if ret[0] != "pair": return f"returned {R}"
-            k, v = unhx(ret[1]), unhx(ret[2])
-            if k not in [n for n, _ in first]: return "popitem returned a key that is not a first-occurrence spelling"
-            if v != fold(allv(p, k)): return "popitem value is not the folded value"
-            if q != others(p, [k]): return "popitem must remove all fields of that name and only those"
+            k, v = untext(ret[1]), untext(ret[2])
+            hit = [n for n, _ in first if D(n) == k]
+            if not isinstance(k, str) or not hit: return "popitem returned a key that is not a first-occurrence spelling"
+            if v != sfold(allv(p, hit[0])): return "popitem value is not the folded value"
+            if q != others(p, [hit[0]]): return "popitem must remove all fields of that name and only those"
             return None
         if o == "sd":
-            if vs: return None if (R == "val " + hx(fold(vs)) and q == p) else "setdefault on present key changed something"
-            d = unhx(a[1])
-            if R != "val " + hx(d): return f"returned {R}"
+            if vs: return None if (R == "val u" + cps(sfold(vs)) and q == p) else "setdefault on present key changed something"
+            d = a[1]
+            if R != "val " + r_text(arg_obj(raw[1], op[2])): return f"returned {R}, not the default object that was passed"
             if allv(q, k) != [d] or others(q, [k]) != others(p, [k]): return "setdefault on absent key did not assign"
+            if [n for n, _ in q if canon(n) == canon(k)] != [k]: return "setdefault on absent key did not store the caller's spelling"
             return None
         if o == "cl": return None if (R == "none" and q == []) else "clear left fields behind"
         if o == "up":
-            ps = [(unhx(k), unhx(v)) for k, v in a[0]]
+            ps = list(a[0])
             if R != "none": return f"returned {R}"
             last = {}
             for k, v in ps: last[canon(k)] = v
@@ -443,14 +576,21 @@ class Check(PropertyCheck):
         kind = case["kind"]
         if kind == "seq":
             toks = ["seq", str(len(case["init"]))] + [x for f in case["init"] for x in f]
+            if case.get("kw"):
+                toks += ["kw", str(len(case["kw"]))] + [r_text(arg_obj(y, 1)) for pr in case["kw"] for y in pr]
             for op in self._norm_ops(case):
                 toks += [op[0], str(op[1])]
+                T = lambda x: r_text(arg_obj(x, op[2]))          # the argument exactly as it is passed to the real method
                 for c, x in zip(SHAPES[op[0]], op[3:]):
-                    if c in "kv": toks.append(x)
+                    if c in "kv": toks.append(T(x))
                     elif c in "ium": toks.append(str(x))
-                    elif c == "V": toks += [str(len(x))] + list(x)
-                    elif c == "P": toks += [str(len(x))] + [y for p in x for y in p]
+                    elif c == "V": toks += [str(len(x))] + [T(v) for v in x]
+                    elif c == "P": toks += [str(len(x))] + [T(y) for p in x for y in p]
             return [" ".join(toks)]
+        if kind == "str":
+            return ["nat " + case["data_hex"]]
+        if kind == "enc":
+            return ["enc u" + case["cps"]]
         if kind == "rt":
             return [" ".join(["rt", str(len(case["fields"]))] + [x for f in case["fields"] for x in f])]
         if kind == "rd":
@@ -460,6 +600,7 @@ class Check(PropertyCheck):
     def model_obs(self, case, replies):
         r = replies[0]
         if case["kind"] == "seq": return r.split(" ; ") if r != "empty" else []
+        if case["kind"] in ("str", "enc"): return r
         if case["kind"] == "rt":
             m = re.fullmatch(r"bytes (\S+) lines (\d+)((?: \S+)*) res (.*)", r)
             if not m: return r
@@ -475,6 +616,8 @@ class Check(PropertyCheck):
 
     def impl_view(self, case, obs):
         if case["kind"] == "seq": return obs
+        if case["kind"] == "str": return obs["native"]
+        if case["kind"] == "enc": return obs["enc"]
         if case["kind"] == "rt":
             if obs["lines"] is None: return {"bytes": obs["bytes"]}
             return obs
@@ -483,19 +626,33 @@ class Check(PropertyCheck):
     # ------------------------------------------------------------------ bookkeeping
     def classify(self, case, obs):
         if case["kind"] == "seq":
-            if not any(op[0] in MUTATORS for op in case["ops"]): return None
+            if not any(op[0] in MUTATORS for op in case["ops"]) and not case.get("kw"): return None
         elif case["kind"] == "rt":
             if not case["fields"]: return None
-        elif not case["lines"]: return None
+        elif case["kind"] == "rd":
+            if not case["lines"]: return None
+        elif case["kind"] == "str":
+            if case["data_hex"] == "-": return None
+        elif not case["cps"] or case["cps"] == "-": return None
         return super().classify(case, obs)
 
     def branches(self, case, obs):
         if case["kind"] == "seq":
             out = {"seq:len%02d" % min(len(obs), 20)}
+            if case.get("kw"):
+                out.add("ctor-kwargs" + (":unicodeerror" if obs == ["unicodeerror"] else ""))
+                obs = obs[1:]
             for op, step in zip(self._norm_ops(case), obs):
-                out.add("op:" + op[0] + (":keyerror" if step.startswith("keyerror") else ""))
+                out.add("op:" + op[0] + (":keyerror" if step.startswith("keyerror") else ":unicodeerror" if step.startswith("unicodeerror") else ""))
                 if op[2] and SHAPES[op[0]].startswith("k"): out.add("key-as-str")
+                if any(ord(ch) > 0x7f for ch in step.partition(" S ")[0] if False): pass
+            if any(" u" in st.partition(" S ")[0] and any(int(w, 16) > 0x7f for tok in st.partition(" S ")[0].split(" ") if tok.startswith("u") and tok != "u-" for w in tok[1:].split(".")) for st in obs):
+                out.add("non-ascii-str-returned")
             return sorted(out)
+        if case["kind"] == "str":
+            return ["str:escapes" if ".dc" in "." + obs["native"][1:] else "str:clean"]
+        if case["kind"] == "enc":
+            return ["enc:" + ("unicodeerror" if obs["enc"] == "unicodeerror" else "ok")]
         if case["kind"] == "rt":
             fs = [(unhx(n), unhx(v)) for n, v in case["fields"]]
             v = all(valid_field(n, x) for n, x in fs)
